@@ -144,3 +144,99 @@ Example ex_centroid : centroid 8 (GPoly [(0,0); (6,0); (6,6); (0,6); (0,0)] []) 
 Proof. vm_compute. reflexivity. Qed.
 Example ex_hilbert : c_encode_3 3 5 6 = 39 /\ c_decode_2 3 39 = (5, 6).
 Proof. vm_compute. split; reflexivity. Qed.
+
+(* ================================================================== Centroid.cpp accumulation, GENERATED (Gen/CEN_*.v)
+   `double` read as an integer on the grid; ccw = Orientation::isCCW, dist = CoordinateXY::distance, dv = the floating `/`
+   are universally quantified (the theorems hold for every such function).  Names of the generated units: cen_<member>. *)
+From GeosV.C20 Require CentroidPrelude CentroidGen.
+From GeosV.Gen Require CEN_addTriangle CEN_addPoint CEN_addLineSegments CEN_addShell CEN_addHole CEN_getCentroid.
+Section GeneratedCentroid.
+Import CentroidPrelude CentroidGen CEN_addTriangle CEN_addPoint CEN_addLineSegments CEN_addShell CEN_addHole CEN_getCentroid.
+
+(* addTriangle: cg3 += sign*area2*(p0+p1+p2) on both ordinates, areasum2 += sign*area2, nothing else moves *)
+Theorem C20_gen_addTriangle : forall st p0 p1 p2 pos,
+  cen_addTriangle st p0 p1 p2 pos =
+  mkCst (f_areaBasePt st) (px p0 + px p1 + px p2, py p0 + py p1 + py p2)
+        (fst (f_cg3 st) + sg pos * orient p0 p1 p2 * (px p0 + px p1 + px p2),
+         snd (f_cg3 st) + sg pos * orient p0 p1 p2 * (py p0 + py p1 + py p2))
+        (f_lineCentSum st) (f_ptCentSum st) (f_areasum2 st + sg pos * orient p0 p1 p2) (f_totalLength st) (f_ptCount st).
+Proof. exact gen_addTriangle_spec. Qed.
+Print Assumptions C20_gen_addTriangle.
+
+(* (a) addShell on ANY non-empty coordinate list (no size bound): base point = r[0], areasum2 / cg3 grow by sign * fan sums,
+   sign = +1 iff not isCCW(r) *)
+Theorem C20_gen_addShell_area : forall ccw dist dv st b r', let r := b :: r' in
+  let st' := cen_addShell ccw dist dv st r in
+  f_areaBasePt st' = b /\ area_part st st' (scale3 (sg (negb (ccw r))) (fan b r)).
+Proof. exact gen_addShell_area. Qed.
+Print Assumptions C20_gen_addShell_area.
+
+(* (a') on a CLOSED ring the same sums come out for every base point, and the area term is sign * shoelace *)
+Theorem C20_gen_addShell_base_independent : forall ccw dist dv st b r' b', let r := b :: r' in last r b = b ->
+  let st' := cen_addShell ccw dist dv st r in
+  area_part st st' (scale3 (sg (negb (ccw r))) (fan b' r)) /\
+  f_areasum2 st' = f_areasum2 st + sg (negb (ccw r)) * shoelace r.
+Proof. exact gen_addShell_base_independent. Qed.
+Print Assumptions C20_gen_addShell_base_independent.
+
+(* (b) holes: the same accumulation with the opposite flag, from the base point addShell left *)
+Theorem C20_gen_addHole_area : forall ccw dist dv st r, r <> [] ->
+  let st' := cen_addHole ccw dist dv st r in
+  f_areaBasePt st' = f_areaBasePt st /\ area_part st st' (scale3 (sg (ccw r)) (fan (f_areaBasePt st) r)).
+Proof. exact gen_addHole_area. Qed.
+Print Assumptions C20_gen_addHole_area.
+
+(* addLineSegments never touches the area accumulators (any distance, any division) *)
+Theorem C20_gen_addLineSegments_area_frame : forall dist dv st r, area_frame st (cen_addLineSegments dist dv st r).
+Proof. exact gen_addLineSegments_area_frame. Qed.
+Print Assumptions C20_gen_addLineSegments_area_frame.
+
+(* (c) addPoint over any point list: plain sums and the count *)
+Theorem C20_gen_addPoints_sum : forall l st,
+  let st' := fold_left cen_addPoint l st in
+  f_ptCount st' = f_ptCount st + Z.of_nat (length l) /\
+  fst (f_ptCentSum st') = fst (f_ptCentSum st) + fold_right (fun p a => px p + a) 0 l /\
+  snd (f_ptCentSum st') = snd (f_ptCentSum st) + fold_right (fun p a => py p + a) 0 l /\
+  f_areasum2 st' = f_areasum2 st /\ f_cg3 st' = f_cg3 st /\ f_totalLength st' = f_totalLength st /\ f_lineCentSum st' = f_lineCentSum st.
+Proof. exact gen_addPoints_sum. Qed.
+Print Assumptions C20_gen_addPoints_sum.
+
+(* (d) getCentroid: area sums iff |areasum2| > 0, else line sums iff totalLength > 0, else point sums iff ptCount > 0, else
+   false; the operands that reach the division are exactly (cg3/3, areasum2), (lineCentSum, totalLength), (ptCentSum, ptCount) *)
+Theorem C20_gen_getCentroid_selection : forall dv st c0,
+  cen_getCentroid dv st c0 =
+  match sel_kind st with
+  | Some 2 => ((dv (dv (fst (f_cg3 st)) 3) (f_areasum2 st), dv (dv (snd (f_cg3 st)) 3) (f_areasum2 st)), true)
+  | Some 1 => ((dv (fst (f_lineCentSum st)) (f_totalLength st), dv (snd (f_lineCentSum st)) (f_totalLength st)), true)
+  | Some _ => ((dv (fst (f_ptCentSum st)) (f_ptCount st), dv (snd (f_ptCentSum st)) (f_ptCount st)), true)
+  | None => (c0, false)
+  end.
+Proof. exact gen_getCentroid_selection. Qed.
+Print Assumptions C20_gen_getCentroid_selection.
+(* what the code does for "highest-dimension components": it tests the accumulated signed area, so polygons whose areas
+   are all zero (or cancel) fall through to the line sums, which include the polygon rings *)
+Theorem C20_gen_getCentroid_zero_area_falls_through : forall dv st c0, f_areasum2 st = 0 -> 0 < f_totalLength st ->
+  cen_getCentroid dv st c0 = ((dv (fst (f_lineCentSum st)) (f_totalLength st), dv (snd (f_lineCentSum st)) (f_totalLength st)), true).
+Proof. exact gen_getCentroid_zero_area_falls_through. Qed.
+Print Assumptions C20_gen_getCentroid_zero_area_falls_through.
+
+(* bridging: generated accumulation over any polygon list = - (area sums of Defs.acc_geom); when Defs.centroid is the
+   area-weighted mean nx/d, ny/d the generated getCentroid divides cg3 = -(nx, ny) by 3*areasum2 = -d *)
+Theorem C20_gen_polygons_centroid_bridge : forall ccw dist dv k ps, Forall (poly_agrees ccw) ps ->
+  let st := fold_left (gen_poly ccw dist dv) ps cst0 in
+  let g := GColl 6 (map poly_geom (rev ps)) in
+  area_neg st (acc_geom k g) /\
+  (forall nx ny d, centroid k g = Some (2, nx, ny, d) ->
+     sel_kind st = Some 2 /\ fst (f_cg3 st) = - nx /\ snd (f_cg3 st) = - ny /\ 3 * f_areasum2 st = - d /\ d <> 0).
+Proof. exact gen_polygons_centroid_bridge. Qed.
+Print Assumptions C20_gen_polygons_centroid_bridge.
+
+Example ex_gen_centroid : Forall (poly_agrees isCCW) ex_ps /\
+  (let st := fold_left (gen_poly isCCW (fun _ _ => 1) Z.div) ex_ps cst0 in
+   (f_areasum2 st, f_cg3 st, sel_kind st) = (-79, (-936, -666), Some 2) /\
+   centroid 8 (GColl 6 (map poly_geom (rev ex_ps))) = Some (2, 936, 666, 237)).
+Proof. split; [exact ex_ps_agrees | exact ex_ps_state]. Qed.
+Example ex_gen_zero_area : let st := fold_left (gen_poly isCCW (fun _ _ => 1) Z.div) [([(0,0); (2,0); (4,0); (0,0)], [])] cst0 in
+  f_areasum2 st = 0 /\ sel_kind st = Some 1.
+Proof. exact ex_zero_area_falls_through. Qed.
+End GeneratedCentroid.
